@@ -16,6 +16,7 @@ import itertools
 import json
 import random
 
+from bcheck import history
 from bcheck.common import Collector, args, run_sharded, call
 from bcheck import ref_c19 as R
 
@@ -617,6 +618,8 @@ def check_input(cx, inp):
 def main():
     a = args(PROP)
     col = Collector(PROP, a.tier, a.seed)
+    if a.replay and history.replayed(a, col, "C19"):
+        return
     if a.replay:
         rp = json.load(open(a.replay))
         cx = Ctx(col)
@@ -709,6 +712,7 @@ def main():
     col.notes.append({"violating_evaluations_per_clause_and_tag": vtotals})
     col.notes.append({"families (clause -> tag -> count, minimal witness)": families})
     col.notes.append({"clauses": CLAUSES})
+    history.run(col, "C19", a.tier == "quick")
     col.dump(a.out)
 
 
